@@ -277,6 +277,106 @@ def clonePages (f : Nat) (src : Src) : List PageM → St → List (Out PageOut) 
     let rs := clonePages f src ps r.2
     (r.1 :: rs.1, rs.2)
 
+/-! ### pages in the page tree: inheritable attributes, the two entry points
+
+  Rust                                                      model
+  ----                                                      -----
+  inherit(&self.parent, f)  (types.rs)                      nearest  (the tail of a chain)
+  Page::media_box()   own, else nearest ancestor, else Err  nearest pt.media
+  Page::crop_box()    own, else nearest ancestor, else      (nearest pt.crop).getD (media box)
+                      media_box()
+  Page::resources()   own, else nearest ancestor, else Err  nearest pt.resChain   (a whole dictionary: no merging)
+  page.trim_box       own entry only                        pt.trim
+  page.rotate         own entry, default 0: the library     (pt.rotate.head?).join.getD 0
+                      does NOT inherit /Rotate
+  PageBuilder::clone_page                                   clonePageT  (resources()? → operations → media_box()? →
+                                                            crop_box()? → metadata, lgi, vp, other)
+  PageBuilder::from_page                                    fromPageT   (media_box()? → crop_box()? → resources()?;
+                                                            nothing is cloned, the typed `Resources` is kept whole —
+                                                            it has no /Shading field, so those entries are gone)
+-/
+
+/-- an inheritable attribute as the page tree gives it: the page's own entry first, then the entries of its
+    ancestors, nearest first -/
+def nearest {α : Type} : List (Option α) → Option α
+  | [] => none
+  | some v :: _ => some v
+  | none :: c => nearest c
+
+/-- a page as it sits in the page tree; box values are abstract numbers -/
+structure PageT where
+  ops : List OpM
+  /-- /Resources of the page, of its parent, of its grand-parent, … -/
+  resChain : List (Option (ResTable Entry))
+  media : List (Option Nat)
+  crop : List (Option Nat)
+  /-- /TrimBox is not inheritable -/
+  trim : Option Nat
+  /-- /Rotate of the page, of its parent, … (the specification makes it inheritable) -/
+  rotate : List (Option Nat)
+  rest : List Edge
+deriving DecidableEq, Repr, Inhabited
+
+structure PageOutT where
+  res : ResTable (Nat × List Nat)
+  rest : List Nat
+  media : Nat
+  crop : Nat
+  trim : Option Nat
+  rotate : Nat
+deriving DecidableEq, Repr, Inhabited
+
+/-- `page.rotate`: `#[pdf(key="Rotate", default="0")]` on `Page`; `PageTree` has no such field -/
+def PageT.ownRotate (pt : PageT) : Nat := (pt.rotate.head?.join).getD 0
+
+/-- `PageBuilder::clone_page` on a page of the tree -/
+def clonePageT (f : Nat) (src : Src) (pt : PageT) (st : St) : Out PageOutT × St :=
+  match nearest pt.resChain with
+  | none => (.err, st)
+  | some res =>
+    match (cloneOps f src res pt.ops st).1 with
+    | .ok _ =>
+      match nearest pt.media with
+      | none => (.err, (cloneOps f src res pt.ops st).2.2)
+      | some m =>
+        match (cloneKids f src pt.rest (cloneOps f src res pt.ops st).2.2).1 with
+        | .ok ks =>
+          (.ok ⟨(cloneOps f src res pt.ops st).2.1, ks, m, (nearest pt.crop).getD m, pt.trim, pt.ownRotate⟩,
+            (cloneKids f src pt.rest (cloneOps f src res pt.ops st).2.2).2)
+        | .err => (.err, (cloneKids f src pt.rest (cloneOps f src res pt.ops st).2.2).2)
+        | .panic => (.panic, (cloneKids f src pt.rest (cloneOps f src res pt.ops st).2.2).2)
+        | .oof => (.oof, (cloneKids f src pt.rest (cloneOps f src res pt.ops st).2.2).2)
+    | .err => (.err, (cloneOps f src res pt.ops st).2.2)
+    | .panic => (.panic, (cloneOps f src res pt.ops st).2.2)
+    | .oof => (.oof, (cloneOps f src res pt.ops st).2.2)
+
+def clonePagesT (f : Nat) (src : Src) : List PageT → St → List (Out PageOutT) × St
+  | [], st => ([], st)
+  | p :: ps, st =>
+    let r := clonePageT f src p st
+    let rs := clonePagesT f src ps r.2
+    (r.1 :: rs.1, rs.2)
+
+structure FromOut where
+  res : ResTable Entry
+  media : Nat
+  crop : Nat
+  trim : Option Nat
+  rotate : Nat
+deriving DecidableEq, Repr, Inhabited
+
+/-- the typed `Resources` struct keeps every category it has a field for -/
+def typedRes (t : ResTable Entry) : ResTable Entry := t.filter fun p => p.1.1 ≠ .shading
+
+/-- `PageBuilder::from_page` -/
+def fromPageT (pt : PageT) : Out FromOut :=
+  match nearest pt.media with
+  | none => .err
+  | some m =>
+    match nearest pt.resChain with
+    | none => .err
+    | some res => .ok ⟨typedRes res, m, (nearest pt.crop).getD m, pt.trim, pt.ownRotate⟩
+
 /-! ### the code before the fixes (regression statements only) -/
 
 namespace Old
